@@ -96,6 +96,11 @@ def trace_family(ctx, r):
         if ctx.thorough() and i % 9 == 0:
             big = 150      # many outputs: several BufWriter flushes of the 4 MB buffer are not reached by small chains
         s = scenario(r, cb, n=r.randrange(1, 6), per_file=r.choice([None, 2]), big=big, coin=["bitcoin", "litecoin"][i % 2])
+        trace_one(ctx, s, i)
+
+
+def trace_one(ctx, s, i):
+        cb = s.callback
         res, files, order = traced_run(s)
         s.want_fstrace = True
         m = model_files(s)
@@ -156,7 +161,7 @@ def trace_family(ctx, r):
                 problems.append(("global-order-vs-ON-machine", got[max(0, k - 2):k + 4], m["fstrace"][max(0, k - 2):k + 4]))
         if problems:
             ctx.disagree("syscall-trace", bb.describe(s), {"problems": [list(map(str, p)) for p in problems[:5]], "exit": res.exit}, {"exit": m["exit"], "files": sorted(m["files"])}, True,
-                         {"scenario": bb.scenario_dump(s), "observable": problems[0][0]})
+                         {"scenario": bb.scenario_dump(s), "observable": problems[0][0], "replay_kind": "trace"})
         elif len(ctx.samples) < 3:
             ctx.add_sample({"family": "syscall-trace", "callback": cb, "trace": {k: [list(e) for e in v][:6] for k, v in files.items()}})
 
@@ -166,7 +171,7 @@ def undisturbed(s):
     return res
 
 
-def expect_failure(ctx, fam, s, res, what, ref=None, want_height=None):
+def expect_failure(ctx, fam, s, res, what, ref=None, want_height=None, rk=None):
     bad = []
     if res.exit == 0:
         bad.append("exit 0")
@@ -177,7 +182,53 @@ def expect_failure(ctx, fam, s, res, what, ref=None, want_height=None):
     if bad:
         ctx.disagree(fam, dict(bb.describe(s), fault=what), {"exit": res.exit, "problems": bad, "stderr": res.stderr.decode(errors="replace")[-200:], "files": sorted(res.files)},
                      {"expected": "exit != 0, no final-named file" + (", Error at height %d" % want_height if want_height is not None else "")}, True,
-                     {"scenario": bb.scenario_dump(s), "fault": what, "observable": bad[0]})
+                     dict({"scenario": bb.scenario_dump(s), "fault": what, "observable": bad[0], "want_height": want_height}, **(rk or {"replay_kind": "expect-failure"})))
+
+
+def wfault_once(ctx, s, ref, tmp, Kth):
+    cb = s.callback
+    base = C.scratch()
+    try:
+        d, dump = os.path.join(base, "data"), os.path.join(base, "dump")
+        s.write_dir(d)
+        os.makedirs(dump)
+        path = os.path.join(dump, tmp)
+        res = s.run_impl(datadir=d, dump=dump, wrapper=["strace", "-f", "-o", "/dev/null", "-P", path, "-e", "trace=write", "-e", "inject=write:error=ENOSPC:when=%d+" % Kth])
+    finally:
+        C.rmtree(base)
+    ctx.mark(("wfault", cb, tmp, Kth), Kth == 1)
+    ctx.families["write-fault-inject"] += 1
+    rk = {"replay_kind": "wfault", "tmp": tmp, "Kth": Kth}
+    if Kth == 1:
+        expect_failure(ctx, "write-fault-inject", s, res, "write #%d+ to %s fails with ENOSPC" % (Kth, tmp), rk=rk)
+    else:
+        # the small run has a single write per file: a fault on a later write never happens, the run must be complete
+        if res.exit != 0 or res.final_files().keys() != ref.final_files().keys():
+            ctx.disagree("write-fault-inject", dict(bb.describe(s), fault="none hit"), {"exit": res.exit, "files": sorted(res.files)}, {"expected": "complete run"}, True,
+                         dict({"scenario": bb.scenario_dump(s), "observable": "spurious-failure"}, **rk))
+
+
+def _limiter(n):
+    def f():
+        signal.signal(signal.SIGXFSZ, signal.SIG_IGN)
+        resource.setrlimit(resource.RLIMIT_FSIZE, (n, n))
+    return f
+
+
+def limit_once(ctx, s, ref, L):
+    cb = s.callback
+    sizes = {n: len(b) for n, b in ref.final_files().items()}
+    res = s.run_impl(preexec=_limiter(L))
+    fits = all(v <= L for v in sizes.values())
+    ctx.mark(("fsize", cb, L), not fits)
+    ctx.families["rlimit-fsize"] += 1
+    rk = {"replay_kind": "limit", "limit": L}
+    if fits:
+        if res.exit != 0 or {n: sorted(b.splitlines()) for n, b in res.final_files().items()} != {n: sorted(b.splitlines()) for n, b in ref.final_files().items()} or res.tmp_files():
+            ctx.disagree("rlimit-fsize", dict(bb.describe(s), fault="limit %d (everything fits)" % L), {"exit": res.exit, "files": sorted(res.files)}, {"expected": "exit 0, complete output"}, True,
+                         dict({"scenario": bb.scenario_dump(s), "observable": "spurious-failure"}, **rk))
+    else:
+        expect_failure(ctx, "rlimit-fsize", s, res, "RLIMIT_FSIZE=%d, dump sizes %s" % (L, sizes), rk=rk)
 
 
 def write_fault_family(ctx, r):
@@ -189,29 +240,9 @@ def write_fault_family(ctx, r):
         for final in finals:
             tmp = tmp_of(final)
             for Kth in (1, 2):
-                base = C.scratch()
-                try:
-                    d, dump = os.path.join(base, "data"), os.path.join(base, "dump")
-                    s.write_dir(d)
-                    os.makedirs(dump)
-                    path = os.path.join(dump, tmp)
-                    res = s.run_impl(datadir=d, dump=dump, wrapper=["strace", "-f", "-o", "/dev/null", "-P", path, "-e", "trace=write", "-e", "inject=write:error=ENOSPC:when=%d+" % Kth])
-                finally:
-                    C.rmtree(base)
-                ctx.mark(("wfault", cb, tmp, Kth), Kth == 1)
-                ctx.families["write-fault-inject"] += 1
-                if Kth == 1:
-                    expect_failure(ctx, "write-fault-inject", s, res, "write #%d+ to %s fails with ENOSPC" % (Kth, tmp))
-                else:
-                    # the small run has a single write per file: a fault on a later write never happens, the run must be complete
-                    if res.exit != 0 or res.final_files().keys() != ref.final_files().keys():
-                        ctx.disagree("write-fault-inject", dict(bb.describe(s), fault="none hit"), {"exit": res.exit, "files": sorted(res.files)}, {"expected": "complete run"}, True, {"scenario": bb.scenario_dump(s), "observable": "spurious-failure"})
+                wfault_once(ctx, s, ref, tmp, Kth)
     # RLIMIT_FSIZE sweep
-    def limiter(n):
-        def f():
-            signal.signal(signal.SIGXFSZ, signal.SIG_IGN)
-            resource.setrlimit(resource.RLIMIT_FSIZE, (n, n))
-        return f
+    limiter = _limiter
     for cb in FILE_CBS:
         s = scenario(r, cb, n=2)
         ref = undisturbed(s)
@@ -231,15 +262,30 @@ def write_fault_family(ctx, r):
         for L in limits:
             if L < floor:
                 continue
-            res = s.run_impl(preexec=limiter(L))
-            fits = all(v <= L for v in sizes.values())
-            ctx.mark(("fsize", cb, L), not fits)
-            ctx.families["rlimit-fsize"] += 1
-            if fits:
-                if res.exit != 0 or {n: sorted(b.splitlines()) for n, b in res.final_files().items()} != {n: sorted(b.splitlines()) for n, b in ref.final_files().items()} or res.tmp_files():
-                    ctx.disagree("rlimit-fsize", dict(bb.describe(s), fault="limit %d (everything fits)" % L), {"exit": res.exit, "files": sorted(res.files)}, {"expected": "exit 0, complete output"}, True, {"scenario": bb.scenario_dump(s), "limit": L, "observable": "spurious-failure"})
-            else:
-                expect_failure(ctx, "rlimit-fsize", s, res, "RLIMIT_FSIZE=%d, dump sizes %s" % (L, sizes))
+            limit_once(ctx, s, ref, L)
+
+
+def crash_once(ctx, s, ref, call, Kth):
+    cb = s.callback
+    base = C.scratch()
+    try:
+        d, dump = os.path.join(base, "data"), os.path.join(base, "dump")
+        s.write_dir(d)
+        os.makedirs(dump)
+        res = s.run_impl(datadir=d, dump=dump, wrapper=["strace", "-f", "-o", "/dev/null", "-e", "trace=%s" % call, "-e", "inject=%s:signal=KILL:when=%d" % (call, Kth)])
+    finally:
+        C.rmtree(base)
+    ctx.families["crash-" + call] += 1
+    killed = res.exit in (-9, 137)
+    ctx.mark(("crash", cb, call, Kth), killed)
+    # whatever happened: a final-named file, if present, is complete
+    for n, b in res.final_files().items():
+        want = ref.final_files().get(n)
+        same = (b == want) if cb == "csvdump" else (want is not None and sorted(b.splitlines()) == sorted(want.splitlines()) and b.endswith(b"\n"))
+        if not same:
+            ctx.disagree("crash-point", dict(bb.describe(s), fault="SIGKILL at %s #%d" % (call, Kth)), {"file": n, "size": len(b), "exit": res.exit}, {"expected_size": None if want is None else len(want)}, True,
+                         {"scenario": bb.scenario_dump(s), "fault": "kill:%s:%d" % (call, Kth), "observable": "partial-final-file", "replay_kind": "crash", "call": call, "Kth": Kth})
+    return res, killed
 
 
 def crash_family(ctx, r):
@@ -255,28 +301,50 @@ def crash_family(ctx, r):
             Kth = 1
             survived = False
             while Kth <= Kmax and not survived:
-                base = C.scratch()
-                try:
-                    d, dump = os.path.join(base, "data"), os.path.join(base, "dump")
-                    s.write_dir(d)
-                    os.makedirs(dump)
-                    res = s.run_impl(datadir=d, dump=dump, wrapper=["strace", "-f", "-o", "/dev/null", "-e", "trace=%s" % call, "-e", "inject=%s:signal=KILL:when=%d" % (call, Kth)])
-                finally:
-                    C.rmtree(base)
-                ctx.families["crash-" + call] += 1
-                killed = res.exit in (-9, 137)
-                ctx.mark(("crash", cb, call, Kth), killed)
+                res, killed = crash_once(ctx, s, ref, call, Kth)
                 if not killed and res.exit == 0:
                     survived = True
-                # whatever happened: a final-named file, if present, is complete
-                for n, b in res.final_files().items():
-                    want = ref.final_files().get(n)
-                    same = (b == want) if cb == "csvdump" else (want is not None and sorted(b.splitlines()) == sorted(want.splitlines()) and b.endswith(b"\n"))
-                    if not same:
-                        ctx.disagree("crash-point", dict(bb.describe(s), fault="SIGKILL at %s #%d" % (call, Kth)), {"file": n, "size": len(b), "exit": res.exit}, {"expected_size": None if want is None else len(want)}, True,
-                                     {"scenario": bb.scenario_dump(s), "fault": "kill:%s:%d" % (call, Kth), "observable": "partial-final-file"})
                 # sample the long openat/write prefixes that belong to LevelDB start-up unless thorough
                 Kth += 1 if (ctx.thorough() or call == "rename" or Kth < 6) else 7
+
+
+def rerun_once(ctx, s, stop, rep=0):
+    import copy
+    cb = s.callback
+    small = copy.copy(s)
+    small.stop = stop
+    ref = undisturbed(small)
+    base = C.scratch()
+    try:
+        d, dump = os.path.join(base, "data"), os.path.join(base, "dump")
+        s.write_dir(d)
+        os.makedirs(dump)
+        tmp0 = {"csvdump": "blocks.csv.tmp", "unspentcsvdump": "unspent.csv.tmp", "balances": "balances.csv.tmp"}[cb]
+        # -P restricts the injection to syscalls naming this dump file (LevelDB renames its own files at start-up)
+        first = s.run_impl(datadir=d, dump=dump, wrapper=["strace", "-f", "-o", "/dev/null", "-P", os.path.join(dump, tmp0), "-e", "trace=rename", "-e", "inject=rename:signal=KILL:when=1"])
+        left = sorted(n for n in first.files if n.endswith(".tmp"))
+        second = small.run_impl(datadir=d, dump=dump)
+    finally:
+        C.rmtree(base)
+    ctx.families["rerun-after-failure"] += 1
+    ctx.mark(("rerun", cb, rep), bool(left))
+    problems = []
+    if not left or first.exit == 0:
+        ctx.notes.append("rerun-after-failure: the earlier run was not killed as planned (exit %s, left %s)" % (first.exit, left))
+    if second.exit != 0:
+        problems.append(("exit", second.exit, 0))
+    for n, want in ref.final_files().items():
+        got = second.files.get(n)
+        same = (got == want) if cb == "csvdump" else (got is not None and sorted(got.splitlines()) == sorted(want.splitlines()) and got.endswith(b"\n"))
+        if not same:
+            problems.append(("final-differs-from-undisturbed-run", n, {"size": None if got is None else len(got), "expected": len(want)}))
+    if [n for n in second.files if n.endswith(".tmp")]:
+        problems.append(("tmp-left", sorted(n for n in second.files if n.endswith(".tmp")), None))
+    if problems:
+        # the replay needs the LONG scenario (the earlier, killed run) and the stop height of the second run
+        ctx.disagree("rerun-after-failure", dict(bb.describe(small), earlier_run="killed at first rename; left %s" % left),
+                     {"problems": [list(map(str, p)) for p in problems[:4]], "exit": second.exit}, {"expected": "finals identical to an undisturbed run, no tmp"}, True,
+                     {"scenario": bb.scenario_dump(s), "observable": problems[0][0], "replay_kind": "rerun", "rerun_stop": stop})
 
 
 def rerun_family(ctx, r):
@@ -287,39 +355,7 @@ def rerun_family(ctx, r):
     for cb in FILE_CBS:
         for rep in range(ctx.n(1, 4)):
             s = scenario(r, cb, n=r.randrange(5, 8))
-            small = copy.copy(s)
-            small.stop = 1
-            ref = undisturbed(small)
-            base = C.scratch()
-            try:
-                d, dump = os.path.join(base, "data"), os.path.join(base, "dump")
-                s.write_dir(d)
-                os.makedirs(dump)
-                tmp0 = {"csvdump": "blocks.csv.tmp", "unspentcsvdump": "unspent.csv.tmp", "balances": "balances.csv.tmp"}[cb]
-                # -P restricts the injection to syscalls naming this dump file (LevelDB renames its own files at start-up)
-                first = s.run_impl(datadir=d, dump=dump, wrapper=["strace", "-f", "-o", "/dev/null", "-P", os.path.join(dump, tmp0), "-e", "trace=rename", "-e", "inject=rename:signal=KILL:when=1"])
-                left = sorted(n for n in first.files if n.endswith(".tmp"))
-                second = small.run_impl(datadir=d, dump=dump)
-            finally:
-                C.rmtree(base)
-            ctx.families["rerun-after-failure"] += 1
-            ctx.mark(("rerun", cb, rep), bool(left))
-            problems = []
-            if not left or first.exit == 0:
-                ctx.notes.append("rerun-after-failure: the earlier run was not killed as planned (exit %s, left %s)" % (first.exit, left))
-            if second.exit != 0:
-                problems.append(("exit", second.exit, 0))
-            for n, want in ref.final_files().items():
-                got = second.files.get(n)
-                same = (got == want) if cb == "csvdump" else (got is not None and sorted(got.splitlines()) == sorted(want.splitlines()) and got.endswith(b"\n"))
-                if not same:
-                    problems.append(("final-differs-from-undisturbed-run", n, {"size": None if got is None else len(got), "expected": len(want)}))
-            if [n for n in second.files if n.endswith(".tmp")]:
-                problems.append(("tmp-left", sorted(n for n in second.files if n.endswith(".tmp")), None))
-            if problems:
-                ctx.disagree("rerun-after-failure", dict(bb.describe(small), earlier_run="killed at first rename; left %s" % left),
-                             {"problems": [list(map(str, p)) for p in problems[:4]], "exit": second.exit}, {"expected": "finals identical to an undisturbed run, no tmp"}, True,
-                             {"scenario": bb.scenario_dump(small), "observable": problems[0][0]})
+            rerun_once(ctx, s, 1, rep)
 
 
 def input_fault_family(ctx, r):
@@ -377,9 +413,10 @@ def input_fault_family(ctx, r):
                 if m["exit"] == 0:
                     continue      # e.g. truncation exactly at the end of the block: nothing is damaged
                 want_h = m.get("errheight")
-                expect_failure(ctx, "input-fault", s, res, "%s at height %d (%s)" % (kind, h, arg), want_height=want_h)
+                ran = far if far is not None else s
+                expect_failure(ctx, "input-fault", ran, res, "%s at height %d (%s)" % (kind, h, arg), want_height=want_h)
                 if res.exit != m["exit"]:
-                    ctx.disagree("input-fault", dict(bb.describe(s), fault=kind), {"exit": res.exit}, {"exit": m["exit"]}, False, {"scenario": bb.scenario_dump(s), "observable": "exit-code"})
+                    ctx.disagree("input-fault", dict(bb.describe(ran), fault=kind), {"exit": res.exit}, {"exit": m["exit"]}, False, {"scenario": bb.scenario_dump(ran), "observable": "exit-code", "replay_kind": "expect-failure"})
 
 
 def _with_far(s, h, delta=10**7):
@@ -424,14 +461,26 @@ def correspondence(ctx):
 
 
 def replay(ctx, rep, corpus=None):
+    """re-runs the procedure of the family that produced the record (the fault is part of the failing input, not only the scenario)"""
     d = rep.get("failing_input", rep)
     sd = d.get("scenario")
     if not sd:
         return
     s = bb.scenario_load(sd)
-    res, files, order = traced_run(s)
-    ctx.mark(("replay", corpus), True)
-    first_rename = next((j for j, e in enumerate(order) if e[0] == "rename"), None)
-    ctx.add_sample({"replay": corpus, "order": [list(e)[:3] for e in order][:12]})
-    if first_rename is not None and any(e[0] == "write" for e in order[first_rename:]):
-        ctx.disagree("replay", bb.describe(s), {"order": [list(e)[:3] for e in order[first_rename:first_rename + 6]]}, {"expected": "every write precedes the first rename"}, True, {"scenario": sd, "observable": "write-after-rename"})
+    kind = d.get("replay_kind", "trace")
+    ctx.mark(("replay", corpus, kind), True)
+    if kind == "trace":
+        trace_one(ctx, s, "replay")
+    elif kind == "wfault":
+        wfault_once(ctx, s, undisturbed(s), d["tmp"], d["Kth"])
+    elif kind == "limit":
+        limit_once(ctx, s, undisturbed(s), d["limit"])
+    elif kind == "crash":
+        crash_once(ctx, s, undisturbed(s), d["call"], d["Kth"])
+    elif kind == "rerun":
+        rerun_once(ctx, s, d["rerun_stop"])
+    elif kind == "expect-failure":
+        m = K.run_model([s])[0]
+        res = s.run_impl()
+        if m["exit"] != 0:
+            expect_failure(ctx, "input-fault", s, res, d.get("fault", "replayed input fault"), want_height=m.get("errheight"))
